@@ -265,12 +265,16 @@ struct Stop {
     line: i64,
     locals: Vec<(String, String)>,
     frames: usize,
+    /// The command that was answered to the previous stop (0 = none/continue, 1 = a step request).
+    after_step: bool,
 }
 
 enum DbgMode {
     NoBreakpoints,
     Breakpoints(Vec<(i64, Option<String>)>),
     Stepping(Vec<u8>),
+    /// Breakpoints plus a generated answer per stop: continue, or step Into / Over / Out.
+    Mixed(Vec<(i64, Option<String>)>, Vec<u8>),
 }
 
 /// Runs under the debug adapter. Returns the observation and the list of stops.
@@ -279,7 +283,7 @@ fn run_debug(src: &str, mode: &DbgMode) -> Result<(Obs, Vec<Stop>), String> {
     let (tx, rx) = mpsc::channel::<Msg>();
     let (adapter, hook) = prepare_dap_adapter(Box::new(Client(std::sync::Mutex::new(tx.clone()))));
     let lines: Vec<(i64, Option<String>)> = match mode {
-        DbgMode::Breakpoints(b) => b.clone(),
+        DbgMode::Breakpoints(b) | DbgMode::Mixed(b, _) => b.clone(),
         // stepping needs an initial stop: break on the first line that holds a statement
         DbgMode::Stepping(_) => (1..=src.lines().count() as i64).map(|l| (l, None)).collect(),
         DbgMode::NoBreakpoints => Vec::new(),
@@ -313,6 +317,7 @@ fn run_debug(src: &str, mode: &DbgMode) -> Result<(Obs, Vec<Stop>), String> {
             let _ = txd.send(Msg::Done(obs));
         });
         let mut step_i = 0usize;
+        let mut last_was_step = false;
         loop {
             match rx.recv_timeout(Duration::from_secs(30)) {
                 Ok(Msg::Done(o)) => return Some(o),
@@ -321,7 +326,7 @@ fn run_debug(src: &str, mode: &DbgMode) -> Result<(Obs, Vec<Stop>), String> {
                     let line = adapter.top_frame().ok().flatten().map(|f| f.line).unwrap_or(-1);
                     let locals = adapter.variables(0).map(|v| v.locals.into_iter().map(|x| (x.name.to_string(), x.value)).collect()).unwrap_or_default();
                     let frames = adapter.stack_trace(StackTraceArguments { format: None, levels: None, start_frame: None, thread_id: 0 }).map(|b| b.stack_frames.len()).unwrap_or(0);
-                    stops.push(Stop { line, locals, frames });
+                    stops.push(Stop { line, locals, frames, after_step: last_was_step });
                     if stops.len() > 20_000 {
                         problem = Some("more than 20000 stops".into());
                     }
@@ -334,6 +339,17 @@ fn run_debug(src: &str, mode: &DbgMode) -> Result<(Obs, Vec<Stop>), String> {
                                 1 => StepKind::Over,
                                 _ => StepKind::Out,
                             })
+                        }
+                        DbgMode::Mixed(_, kinds) => {
+                            let k = kinds.get(step_i % kinds.len().max(1)).copied().unwrap_or(0);
+                            step_i += 1;
+                            last_was_step = k % 5 >= 2;
+                            match k % 5 {
+                                0 | 1 => adapter.continue_(),
+                                2 => adapter.step(StepKind::Into),
+                                3 => adapter.step(StepKind::Over),
+                                _ => adapter.step(StepKind::Out),
+                            }
                         }
                         _ => adapter.continue_(),
                     };
@@ -508,6 +524,29 @@ impl Prop for C18 {
                 Ok((o, stops)) => {
                     compare("debugger with breakpoints", &o, &mut r);
                     check_breakpoints(ctx, &p, &chosen, with_cond, &o, &stops, &mut r);
+                }
+                Err(e) => {
+                    r.label("dbg_inconclusive");
+                    println!("INCONCLUSIVE debugger: {e}");
+                }
+            }
+            r.evals += 1;
+        }
+        // breakpoints with a generated answer per stop (continue or a step request): a stop reached by `continue` must be on
+        // a breakpointed line - a step request that was interrupted by a breakpoint must not fire later
+        if !bps.is_empty() {
+            let answers: Vec<u8> = (0..(2 + ch.idx(8))).map(|_| ch.below(5) as u8).collect();
+            match run_debug(&p.src, &DbgMode::Mixed(bps.clone(), answers.clone())) {
+                Ok((o, stops)) => {
+                    compare(&format!("debugger with breakpoints, answers {answers:?} (0,1 = continue, 2 = step into, 3 = over, 4 = out)"), &o, &mut r);
+                    let bp_lines: Vec<i64> = bps.iter().map(|b| b.0).collect();
+                    for (i, st) in stops.iter().enumerate() {
+                        if !st.after_step && !bp_lines.contains(&st.line) {
+                            r.fail("stop-without-breakpoint", format!("stop #{i} at line {} was reached by `continue` but no breakpoint is set there (breakpoints on lines {bp_lines:?}; answers {answers:?}; stops so far {:?})\n{}", st.line, stops.iter().take(i + 1).map(|s| (s.line, s.after_step)).collect::<Vec<_>>(), p.src));
+                            break;
+                        }
+                    }
+                    r.label("mixed_step_continue");
                 }
                 Err(e) => {
                     r.label("dbg_inconclusive");
